@@ -78,7 +78,11 @@ CHECKS.append(chk("C20", "exploration",
     "Grammar-based generation of CREATE VIRTUAL TABLE argument lists over the documented surface (column specifications with plain / single- / double-quoted names incl. spaces, keywords, non-ASCII and embedded quotes, optional types, PRIMARY KEY inline or trailing, NOT NULL on the key, keyword case and whitespace varied; options in any order), half of them with one mutation from the property's list of invalid forms. Accept oracle: pragma table_info equals that of a native table declared from the same specification with proper quoting, rows come back under the specified names, a NULL key is refused. Reject oracle: error, no table registered, no PUT/DELETE in the request log, the corrected definition of the same name then succeeds. Thorough tier adds coverage-guided native fuzzing of the columns parser (no panic, no hang).",
     "grammar-based property-based testing (rapid) with accept/reject model + differential declaration check against SQLite; native go fuzzing of the parser"))
 
-for pid in ["C03","C17","C18","C19"]:
+CHECKS.append(chk("C18", "exploration",
+    "Through the public V1NodeEncryptor: round trip for every plaintext length 0..200 and block edges / large sizes; encrypting twice and under a second instance is byte-identical (deduplication); one generated corruption per case (bit flip anywhere, substitution, truncation, extension, nonce swap, wrong passphrase) must be an error; a harness-owned sealer for the earlier box format (validated byte-for-byte against the package's reference sealer) produces ciphertexts that must decrypt to the plaintext (open finding K6 beyond 32 bytes). kv level over the fake store: no node object contains generated key/value markers (control run without encryptor must show them), same content gives same node names and bytes across buckets and stores no new node object when the nodes exist, one flipped bit in a stored node or another passphrase makes open/Get fail. Thorough adds coverage-guided native fuzzing of Decrypt with an exact oracle (whatever is accepted must re-seal to the input).",
+    "property-based testing (rapid): round-trip, determinism, tamper/negative cases, differential legacy sealer; native go fuzzing with a re-seal oracle"))
+
+for pid in ["C03","C17","C19"]:
     NOT_YET[pid] = "check under construction in this session (designed in DESIGN.md section 5); not claimed until its quick tier runs clean on the unchanged tree"
 
 MANIFEST = {
